@@ -6,6 +6,7 @@ import (
 	"time"
 
 	sdk "github.com/cosmos/cosmos-sdk/types"
+	paramstypes "github.com/cosmos/cosmos-sdk/x/params/types"
 
 	st "github.com/irismod/service/types"
 )
@@ -130,6 +131,12 @@ func lifeAlpha(o AlphaOpts) func(sc *Scenario, v *View) []Action {
 							err = fmt.Errorf("parameter change refused: %v", r)
 						}
 					}()
+					// as the params module does for a passed proposal: straight into the module's parameter subspace
+					if ss, ok := ctx.Value(subspaceKey{}).(paramstypes.Subspace); ok {
+						pp := p.Params()
+						ss.SetParamSet(ctx, &pp)
+						return nil
+					}
 					k.SetParams(ctx, p.Params())
 					return nil
 				}})
